@@ -276,10 +276,23 @@ def closure_exprs(expr, defs, params):
     seen_names = set()
     out = [expr]
     work = [expr]
+    seen_slots = set()
     while work:
         e = work.pop()
+        # `x[k]` of a local that is only ever bound to list/tuple literals: entry k of each of them flows in, not the whole list
+        slotted = set()
         for n in _walk_data(e):
-            if isinstance(n, ast.Name) and n.id in defs and n.id not in seen_names and n.id not in params:
+            if isinstance(n, ast.Subscript) and isinstance(n.value, ast.Name) and isinstance(n.slice, ast.Constant) and isinstance(n.slice.value, int) \
+                    and n.value.id in defs and n.value.id not in params and defs[n.value.id] and all(
+                        isinstance(v, (ast.List, ast.Tuple)) and 0 <= n.slice.value < len(v.elts) for v in defs[n.value.id]):
+                slotted.add(id(n.value))
+                if (n.value.id, n.slice.value) not in seen_slots:
+                    seen_slots.add((n.value.id, n.slice.value))
+                    for v in defs[n.value.id]:
+                        out.append(v.elts[n.slice.value])
+                        work.append(v.elts[n.slice.value])
+        for n in _walk_data(e):
+            if isinstance(n, ast.Name) and id(n) not in slotted and n.id in defs and n.id not in seen_names and n.id not in params:
                 seen_names.add(n.id)
                 for v in defs[n.id]:
                     out.append(v)
